@@ -30,7 +30,7 @@ def run(ctx):
     drv = ctx.build("c26")
     # MC + R: TLC runs the specification machine on every enumerated program / pre-state /
     # transaction, checks the sanity invariants on every state and prints each finished case
-    fams = ["sstore", "seq2", "call", "tx", "auth", "blob", "floor"] + (["seq"] if ctx.thorough else [])
+    fams = ["sstore", "seq2", "call", "tx", "auth", "blob", "floor", "create"] + (["seq"] if ctx.thorough else [])
     for fam in fams:
         res = ctx.model_check("evm/MCMiniEVM", "evm/MCMiniEVM-" + fam, workers=4, tags=("CASE",), timeout=7200, name="MCMiniEVM-" + fam)
         cases = res.lines.get("CASE", [])
@@ -58,6 +58,6 @@ def run(ctx):
         ok, consumed, total, r = ctx.validate("evm/MiniEVMTrace", tp, ntraces=s["traces"], timeout=7200)
         if not ok:
             ctx.reject_trace("evm/MiniEVMTrace", tp, consumed, r)
-    return ctx.finish(rule="MC+R: every case of the families sstore/seq/call/tx/auth/blob/floor computed by TLC and replayed; V: every generated transaction = one trace (tx, enter/opc/exit events, txend with post-state)",
+    return ctx.finish(rule="MC+R: every case of the families sstore/seq/call/tx/auth/blob/floor/create computed by TLC and replayed; V: every generated transaction = one trace (tx, enter/opc/exit events, txend with post-state)",
                       assumptions=["word values < 2^30 exact, larger values as identity tokens", "gas limits <= 4.2M",
                                    "no blob data / KZG, withdrawals, system calls"])
